@@ -235,8 +235,8 @@ func c23Run(x *mc.Exec, sc c23Scenario, rep *mc.Report) mc.Verdict {
 	if res.Deadlock || res.StepCap || res.Horizon || !finished {
 		return mc.Verdict{Violation: fmt.Sprintf("%s: a request waits forever (%+v); log %v", sc.name, res, log), Sig: "C23:request-waits-forever", Detail: map[string]any{"scenario": sc.name, "blocked": res.Blocked}}
 	}
-	if res.Leaked > 0 {
-		panic(c23Infra(fmt.Sprintf("%d goroutines leaked in scenario %s", res.Leaked, sc.name)))
+	if res.Leaked > 0 && !vsched.NoteLeak(res.Leaked) {
+		panic(c23Infra(fmt.Sprintf("too many leaked goroutines (%d more in scenario %s)", res.Leaked, sc.name)))
 	}
 	_ = cache
 	key := sc.name + "|" + strings.Join(log, ",")
@@ -323,7 +323,7 @@ func TestVerifC23(t *testing.T) {
 		return
 	}
 	scs := c23Scenarios(mc.Thorough())
-	bound := mc.Pick(1, 2)
+	bound := mc.Pick(2, 3)
 	rep.Bounds["deviation_bound"] = bound
 	rep.Bounds["scenarios"] = len(scs)
 	rep.Rule = "every execution with at most B deviations from the deterministic default schedule (delay bounding over all threads incl. the cache's own loader, waiter and trim goroutines; injected loader failure) of every scenario of a family (2-3 request threads over whole chunk / second half / two chunks / two keys, invalidator that changes storage then invalidates, setLimits(tiny), reset), 60-slot chunks at 1 s step, virtual time. Non-trivial = execution with more than one storage load or at least one deviation"
